@@ -1,5 +1,6 @@
 import Pyrtma.Drv.Util
 import Pyrtma.Spec.ClientRead
+import Pyrtma.Spec.ClientReadLife
 /-! Line-protocol driver for M3 (see harness/read_corr.py for the grammar). -/
 namespace Pyrtma.Drv.ClientRead
 open Pyrtma.ClientRead Pyrtma.Drv
@@ -119,6 +120,110 @@ def finishCase (c : Case) : List String :=
   let kinds := joinSp (m.map (fun o => (showRes o.res).takeWhile (· != ' ') |>.toString))
   [corr, s!"{c.id} PROP C08 {propWalk c.cfg p calls obs 0}", s!"{c.id} INFO {kinds}"]
 
+
+/-! ### several sessions of one client object (`LCASE`, see harness/read_corr.py) -/
+
+def parseCRes : String → CRes
+  | "joined" => .joined | "ackTimeout" => .ackTimeout | "unknownType" => .unknownType | "invalidDef" => .invalidDef
+  | "lost" => .lost | "blocked" => .blocked | "notConnected" => .notConnected | _ => .crash
+
+def showCRes : CRes → String
+  | .joined => "joined" | .ackTimeout => "ackTimeout" | .unknownType => "unknownType" | .invalidDef => "invalidDef"
+  | .lost => "lost" | .blocked => "blocked" | .notConnected => "notConnected" | .crash => "crash"
+
+def showLOut : LOut → String
+  | .read o => "read " ++ showObs o
+  | .conn o => s!"conn {o.consumed} {if o.connected then 1 else 0} {showCRes o.res}"
+  | .unit => "unit"
+
+def lout_blocked : LOut → Bool
+  | .read o => o.res == .blocked
+  | .conn o => o.res == .blocked
+  | .unit => false
+
+structure LCase where
+  id : String := ""
+  cfg : Cfg := { hsize := 48, defs := [], ack := 2 }
+  calls : List SCall := []     -- reversed while reading
+  obs : List LOut := []        -- reversed while reading
+
+/-- frames / tail lines after `CALL connect` extend the wire of the latest connect -/
+def addFrame (cs : List SCall) (f : Frame) : List SCall :=
+  match cs with
+  | .connect w :: r => .connect { w with fs := w.fs ++ [f] } :: r
+  | _ => cs
+def setTail (cs : List SCall) (t : Bytes) (e : End) : List SCall :=
+  match cs with
+  | .connect w :: r => .connect { w with tail := t, e := e } :: r
+  | _ => cs
+
+def lcorr : List LOut → List LOut → Nat → Option String
+  | [], [], _ => none
+  | m :: ms, o :: os, i =>
+    if showLOut m == showLOut o then (if lout_blocked m then none else lcorr ms os (i + 1))
+    else some s!"call={i} model=[{showLOut m}] impl=[{showLOut o}]"
+  | m :: _, [], i => if lout_blocked m then none else some s!"call={i} model=[{showLOut m}] impl=[missing]"
+  | [], o :: _, i => some s!"call={i} model=[missing] impl=[{showLOut o}]"
+
+def untilBlockedL : List LOut → List LOut
+  | [] => []
+  | o :: os => if lout_blocked o then [o] else o :: untilBlockedL os
+
+/-- the Spec on the implementation's observations (same walk as `lifeHistOk`, naming the failing clause) -/
+def lpropWalk (cfg : Cfg) : Pre → List SCall → List LOut → Nat → String
+  | _, [], _, _ => "ok"
+  | _, _ :: _, [], _ => "ok"          -- the harness stops a case after a hung call
+  | p, .read tmo ack sync :: cs, .read o :: os, i =>
+    if !p.wf cfg then "skip"
+    else
+      match (clauses cfg p ⟨tmo, ack, sync⟩ o).find? (fun c => !c.2) with
+      | some c => s!"fail {c.1} call={i}"
+      | none =>
+        if o.res == .blocked then "ok"
+        else match p.advance o with
+          | some p' => lpropWalk cfg p' cs os (i + 1)
+          | none => s!"fail position_inside_frame call={i}"
+  | p, .setSub sub :: cs, .unit :: os, i =>
+    lpropWalk cfg (if p.connected then { p with sub := sub } else p) cs os (i + 1)
+  | p, .connect w :: cs, .conn o :: os, i =>
+    if !w.pre.wf cfg then "skip"
+    else
+      match (connClauses cfg w o).find? (fun c => !c.2) with
+      | some c => s!"fail {c.1} call={i}"
+      | none =>
+        match connNext p w o with
+        | some (some p') => lpropWalk cfg p' cs os (i + 1)
+        | some none => "ok"
+        | none => s!"fail position_inside_frame call={i}"
+  | p, .disconnect :: cs, .unit :: os, i => lpropWalk cfg (p.closed ⟨false, []⟩) cs os (i + 1)
+  | p, .sendFail :: cs, .conn o :: os, i =>
+    if sendFailOk p o then lpropWalk cfg (if p.connected then p.closed p.sub else p) cs os (i + 1) else s!"fail send_on_dead_connection_is_lost call={i}"
+  | _, _ :: _, _ :: _, i => s!"fail observation_of_another_kind call={i}"
+
+def finishL (c : LCase) : List String :=
+  let calls := c.calls.reverse
+  let obs := c.obs.reverse
+  let m := untilBlockedL (runLife c.cfg (calls.map SCall.toL) St.fresh)
+  let corr := match lcorr m obs 0 with
+    | none => s!"{c.id} CORR ok"
+    | some d => s!"{c.id} CORR diff {d}"
+  [corr, s!"{c.id} PROP C08 {lpropWalk c.cfg Pre.never calls obs 0}"]
+
+def lstepLine (c : LCase) (line : String) : LCase :=
+  match toks line with
+  | ["DEF", t, s, h] => { c with cfg := { c.cfg with defs := c.cfg.defs ++ [⟨intOf t, natOf s, natOf h⟩] } }
+  | ["CALL", "read", t, a, s] => { c with calls := .read (parseTmo t) (a == "1") (s == "1") :: c.calls }
+  | "CALL" :: "sub" :: r => { c with calls := .setSub (parseSub r) :: c.calls }
+  | ["CALL", "connect"] => { c with calls := .connect ⟨[], [], .idle⟩ :: c.calls }
+  | ["CALL", "disconnect"] => { c with calls := .disconnect :: c.calls }
+  | ["CALL", "sendFail"] => { c with calls := .sendFail :: c.calls }
+  | ["FRAME", h, p] => { c with calls := addFrame c.calls ⟨hexToBytes h, hexToBytes p⟩ }
+  | ["TAIL", b, e] => { c with calls := setTail c.calls (hexToBytes b) (parseEnd e) }
+  | "OBS" :: r => { c with obs := .read (parseObs r) :: c.obs }
+  | ["COBS", n, k, r] => { c with obs := .conn ⟨parseCRes r, natOf n, k == "1"⟩ :: c.obs }
+  | ["UOBS"] => { c with obs := .unit :: c.obs }
+  | _ => c
+
 def step (c : Case) (line : String) : Case × List String :=
   match toks line with
   | ["CASE", id, hs, ack] => ({ id := id, cfg := { hsize := natOf hs, defs := [], ack := intOf ack } }, [])
@@ -137,9 +242,18 @@ def main : IO Unit := do
   let stdout ← IO.getStdout
   let lines ← readLines stdin
   let mut c : Case := {}
+  let mut lc : Option LCase := none
   for l in lines do
-    let (c', out) := step c l
-    c := c'
-    for o in out do stdout.putStrLn o
+    match lc, toks l with
+    | none, ["LCASE", id, hs, ack] =>
+      lc := some { id := id, cfg := { hsize := natOf hs, defs := [], ack := intOf ack } }
+    | some k, ["END"] =>
+      for o in finishL k do stdout.putStrLn o
+      lc := none
+    | some k, _ => lc := some (lstepLine k l)
+    | none, _ =>
+      let (c', out) := step c l
+      c := c'
+      for o in out do stdout.putStrLn o
 
 end Pyrtma.Drv.ClientRead
